@@ -2,19 +2,20 @@ import Cherab.Model.Groups
 import Cherab.Gen.GroupTable
 
 /-!
-# C15 — table obligations that hold while finding #10 (DESIGN §6) is open
+# C15 — table obligations that tolerate an explicit list of open findings
 
-`table_wf_partial`: every descriptor is admissible **except** the two that the mis-bound
-`@sensitivity.setter def names` of `SpectroscopicSightLineGroup` produces.  The exception list is written by hand and
-mirrors the open C15 findings; a *new* mis-wired property breaks this proof.  Once the source is fixed the list is simply
-unused (the theorem keeps holding) and `Cherab.Props.C15Table.table_wf` holds as well.
+`table_wf_partial`: every descriptor is admissible except those listed in `openExceptions`.  The list is written by
+hand and mirrors the *open* C15 entries of `known_findings.json`; it is **empty** since finding #10 (DESIGN §6,
+`@sensitivity.setter def names` in `SpectroscopicSightLineGroup`) was fixed in /repo (1f71919), so this module now
+states the same as `Cherab.Props.C15Table.table_wf`, plus key uniqueness and class declarations.  Should a mis-wired
+property be accepted as a known finding in the future, list its (class, attribute) pairs here: a *new* slip still breaks
+the proof.
 -/
 namespace Cherab.Props.C15TableAux
 open Cherab.Groups Cherab.Gen.GroupTable
 
-/-- (class, attribute) pairs known to be mis-wired on the unchanged tree -/
-def openExceptions : List (String × String) :=
-  [("SpectroscopicSightLineGroup", "sensitivity"), ("SpectroscopicSightLineGroup", "names")]
+/-- (class, attribute) pairs known to be mis-wired and accepted as open findings — none at present -/
+def openExceptions : List (String × String) := []
 
 theorem table_partial_all :
     table.all (fun d => d.admissible table || openExceptions.contains (d.cls, d.name)) = true := by decide +kernel
